@@ -50,7 +50,7 @@ Proof.
       rewrite div6 in K2.
       repeat split.
       * f_equal; [clear; lia|]. rewrite <- !app_assoc. reflexivity.
-      * rewrite !app_length in K1. rewrite !app_length. cbn [length]. clear - K1. lia.
+      * rewrite ?app_length in K1. rewrite !app_length. cbn [length]. clear - K1. lia.
       * clear - K2. lia.
 Qed.
 
@@ -94,7 +94,7 @@ Proof.
       rewrite div4 in K2.
       repeat split.
       * f_equal; [clear; lia|]. rewrite <- !app_assoc. reflexivity.
-      * rewrite !app_length in K1. rewrite !app_length. cbn [length]. clear - K1. lia.
+      * rewrite ?app_length in K1. rewrite !app_length. cbn [length]. clear - K1. lia.
       * clear - K2. lia.
 Qed.
 
